@@ -18,7 +18,8 @@ SHRINK_LISTS = [('items',), ('items', '*', 'inner', '*'), ('trailing',),
                 ('cuts',)]
 EXPECTED_PROBES = ['inside_fragmented', 'has_trailing', 'cut_inside_violation',
                    'violation_while_closing', 'offer_declined',
-                   'empty_first_fragment', 'ctl_before_new_data_frame']
+                   'empty_first_fragment', 'ctl_before_new_data_frame',
+                   'big_nonfinal_fragment']
 ASSUMPTIONS = ['close codes 1012-1014 and >= 5000 and RSV1 on control frames '
                'under compression are not generated (the property does not '
                'quantify over them)']
@@ -29,6 +30,7 @@ CLASSES = [
     'new_data_inside_fragmented', 'len_2_63', 'len_all_ones', 'close_1byte',
     'close_reserved_code', 'bad_utf8_single', 'bad_utf8_later_fragment',
     'bad_utf8_split_across', 'bad_utf8_close_reason', 'truncated_utf8_end',
+    'bad_utf8_big_nonfinal',
 ]
 
 MARK = b'TRAILING-MARKER-'
@@ -111,7 +113,7 @@ def make_case(family, i, rng, tier):
     case = {'items': items, 'class': cls, 'vseed': rng.getrandbits(32)}
     inside = False
     if cls in ('new_data_inside_fragmented', 'bad_utf8_later_fragment',
-               'bad_utf8_split_across'):
+               'bad_utf8_split_across', 'bad_utf8_big_nonfinal'):
         inside = False      # these build their own fragmented message
     elif cls in ('orphan_continuation',):
         inside = False
@@ -292,6 +294,22 @@ def violation_frames(case, enc):
             ST.emit(enc, 1, b'abc' + seq[:k], fin=0)
         vmark()
         ST.emit(enc, 0, seq[k:] + b'def', fin=rng.choice([0, 1]))
+    elif cls == 'bad_utf8_big_nonfinal':
+        # the offending byte sits in a non-final fragment that needs the
+        # 64-bit length form; more frames follow before the message ends
+        n = rng.choice([65536, 70000, 131072])
+        k = rng.randrange(0, n - 4)
+        body = bytearray(b'a' * n)
+        bad = rng.choice(BAD_UTF8)
+        body[k:k + len(bad)] = bad
+        first_big = rng.random() < 0.5
+        vmark()
+        if first_big:
+            ST.emit(enc, 1, bytes(body), fin=0)
+        else:
+            ST.emit(enc, 1, b'start ', fin=0)
+            vmark()
+            ST.emit(enc, 0, bytes(body), fin=0)
     elif cls == 'bad_utf8_close_reason':
         vmark()
         ST.emit(enc, 8, b'\x03\xe8' + rng.choice([b'', b'ok ']) +
@@ -388,6 +406,8 @@ def execute(case):
     cuts = sc['conns'][0]['server'][1]['cuts']
     if any(rlen + enc.vstart < c < rlen + enc.vend for c in cuts):
         res.stats['probe:cut_inside_violation'] += 1
+    if case.get('class') == 'bad_utf8_big_nonfinal':
+        res.stats['probe:big_nonfinal_fragment'] += 1
     if case.get('stop_after') is not None:
         res.stats['probe:inside_fragmented'] += 1
     if case.get('trailing'):
